@@ -42,6 +42,16 @@ GROUPS = {
         ("overlap_coefficient", {"A": "coll", "B": "coll"})]),
 }
 
+# functions over the reals (logarithms, real powers): (function, types, options)
+#   static    : parameters fixed to a constant; conditions on them are decided at translation time (one definition per value)
+#   external  : local names bound to an external source (NumPy's RNG) -> become parameters
+REAL_GROUP = ("pyrepseq/stats.py", "FormulasReal.lean", [
+    ("powerlaw_sample", {"size": "rat", "xmin": "rat", "alpha": "rat"}, {"external": {"r": "vec"}, "drop": ["size"]}),
+    ("powerlaw_mle_alpha", {"c": "vec", "cmin": "rat"}, {"static": {"method": "simple"}, "suffix": "_simple", "drop_kwargs": True}),
+    ("powerlaw_mle_alpha", {"c": "vec", "cmin": "rat"}, {"static": {"method": "continuitycorrection"}, "suffix": "_continuitycorrection",
+                                                      "drop_kwargs": True}),
+])
+
 IDENTITY_CALLS = {"np.asarray", "np.array", "ensure_numpy", "list", "pd.Series"}
 
 
@@ -64,10 +74,15 @@ def rat_lit(v):
 
 
 class Fn:
-    def __init__(self, fdef, ptypes):
+    def __init__(self, fdef, ptypes, opts=None):
         self.f = fdef
         self.env = dict(ptypes)          # name -> type
         self.ptypes = ptypes
+        self.opts = opts or {}
+        self.real = opts is not None     # over ℝ (noncomputable) instead of ℚ
+        self.K = "ℝ" if self.real else "Rat"
+        self.static = dict(self.opts.get("static", {}))
+        self.externals = []              # (name, type) of locals turned into parameters
         self.has_nan = any(isinstance(n, ast.Return) and n.value is not None and dotted(n.value) in ("np.nan", "numpy.nan", "math.nan")
                            for n in ast.walk(fdef))
         self.ret = None
@@ -112,7 +127,11 @@ class Fn:
             v, t = self.expr(e.value)
             if t == "vec" and v[2] == "x" and isinstance(e.slice, ast.Constant) and isinstance(e.slice.value, int) and e.slice.value >= 0:
                 return f"({v[1]}.getD {e.slice.value} 0)", "rat"
-            raise Untranslatable("subscript other than <count vector>[<non-negative int constant>]")
+            if t == "vec" and v[2] == "x" and isinstance(e.slice, ast.Compare):
+                m, tm = self.expr(e.slice)              # boolean mask `c[c >= cmin]`: element-wise condition on the same vector
+                if tm == "vecprop" and m[1] == v[1]:
+                    return ("vec", f"({v[1]}.filter fun x => decide {m[2]})", "x"), "vec"
+            raise Untranslatable("subscript other than <count vector>[<non-negative int constant>] or a mask on the same vector")
         if isinstance(e, ast.Call):
             return self.call(e)
         if isinstance(e, ast.Compare):
@@ -123,6 +142,8 @@ class Fn:
             op = {ast.Eq: "=", ast.NotEq: "≠", ast.Lt: "<", ast.LtE: "≤", ast.Gt: ">", ast.GtE: "≥"}.get(type(e.ops[0]))
             if op is None:
                 raise Untranslatable("comparison operator")
+            if ta == "vec" and tb in ("rat", "const", "nat"):
+                return ("vecprop", a[1], f"({a[2]} {op} {self.as_rat(b, tb)})"), "vecprop"
             if "nat" in (ta, tb) and all(t in ("nat", "const") for t in (ta, tb)):
                 return f"({self.as_nat(a, ta)} {op} {self.as_nat(b, tb)})", "prop"
             return f"({self.as_rat(a, ta)} {op} {self.as_rat(b, tb)})", "prop"
@@ -155,6 +176,11 @@ class Fn:
         a, ta = self.expr(e.left)
         b, tb = self.expr(e.right)
         if isinstance(e.op, ast.Pow):
+            if self.real and not (tb == "const" and isinstance(b[2], int) and b[2] >= 0):
+                eb = self.as_rat(b, tb)                 # real power (Real.rpow)
+                if ta == "vec":
+                    return ("vec", a[1], f"({a[2]} ^ {eb})"), "vec"
+                return f"({self.as_rat(a, ta)} ^ {eb})", "rat"
             if tb != "const" or not isinstance(b[2], int) or b[2] < 0:
                 raise Untranslatable("power with a non-constant / non-natural exponent")
             if ta == "vec":
@@ -193,6 +219,12 @@ class Fn:
             v, t = self.expr(e.func.value)
             if t == "vec":
                 return f"({self.vec_term(v)}).sum", "rat"
+        if self.real and name in ("np.log", "numpy.log", "np.floor", "numpy.floor") and len(args) == 1:
+            v, t = self.expr(args[0])
+            wrap = (lambda b: f"(Real.log {b})") if name.endswith("log") else (lambda b: f"((⌊{b}⌋ : ℤ) : Rat)")
+            if t == "vec":
+                return ("vec", v[1], wrap(v[2])), "vec"
+            return wrap(self.as_rat(v, t)), "rat"
         if name == "len" and len(args) == 1:
             v, t = self.expr(args[0])
             if t == "vec" and v[2] == "x":
@@ -225,6 +257,9 @@ class Fn:
         v, t = self.expr(e)
         if t == "nan":
             return "none"
+        if t == "vec" and not self.has_nan:
+            self.note_ret("List Rat")
+            return self.vec_term(v)
         if t == "nat" and not self.has_nan:
             self.note_ret("Nat")
             return v
@@ -257,9 +292,17 @@ class Fn:
                 if src != name:
                     raise Untranslatable("conversion into a different name")
                 return self.block(rest, ind)          # modelled as the identity
+            ext = self.opts.get("external", {})
+            if name in ext and isinstance(s.value, ast.Call) and dotted(s.value.func) in ("np.random.rand", "numpy.random.rand"):
+                self.env[name] = ext[name]            # uniform draws: an explicit parameter of the generated definition
+                self.externals.append((name, ext[name]))
+                return self.block(rest, ind)
             v, t = self.expr(s.value)
             if t == "vec":
-                raise Untranslatable("vector-valued local variable")
+                if v[2] != "x":
+                    raise Untranslatable("vector-valued local variable that is not a selection")
+                self.env[name] = "vec"
+                return f"{pad}let {name} := {v[1]}\n" + self.block(rest, ind)
             if t == "const":
                 v, t = v[0], "rat"
             if t == "prop":
@@ -269,6 +312,11 @@ class Fn:
         if isinstance(s, ast.If):
             if self.is_type_guard(s):
                 return self.block(rest, ind)          # `if type(A) != pd.Series: A = pd.Series(list(A))`: identity
+            st = self.static_value(s.test)
+            if st is not None:
+                if s.orelse:
+                    raise Untranslatable("if with else")
+                return self.block(list(s.body) + rest, ind) if st else self.block(rest, ind)
             if s.orelse:
                 raise Untranslatable("if with else")
             c, t = self.expr(s.test)
@@ -278,7 +326,19 @@ class Fn:
             body = self.block(list(s.body), ind + 1)
             self.env = saved
             return f"{pad}if {c} then\n{body}\n{pad}else\n" + self.block(rest, ind)
+        if isinstance(s, ast.Raise):
+            raise Untranslatable("a reachable raise")
         raise Untranslatable(f"statement {type(s).__name__}")
+
+    def static_value(self, t):
+        """truth value of a condition that only involves parameters fixed at translation time (None: not static)"""
+        names = {n.id for n in ast.walk(t) if isinstance(n, ast.Name)}
+        if not names or not names <= set(self.static):
+            return None
+        try:
+            return bool(eval(compile(ast.Expression(t), "<static>", "eval"), {"__builtins__": {}}, dict(self.static)))
+        except Exception as e:  # noqa
+            raise Untranslatable(f"static condition cannot be evaluated: {e!r}")
 
     def is_type_guard(self, s):
         t = s.test
@@ -295,20 +355,29 @@ class Fn:
 
     def lean(self):
         body = self.block(list(self.f.body), 1)
-        ret = {"Rat": "Rat", "Nat": "Nat", None: "Rat"}[self.ret]
+        ret = {"Rat": "Rat", "Nat": "Nat", None: "Rat", "List Rat": "List Rat"}[self.ret]
         if self.has_nan:
             ret = "Option Rat"
         params = []
         generic = any(t == "coll" for t in self.ptypes.values())
+        ty = lambda t: 'List Rat' if t == 'vec' else ('List β' if t == 'coll' else 'Rat')  # noqa: E731
+        for n_, t_ in self.externals:
+            params.append(f"({n_} : {ty(t_)})")
         for a in self.f.args.args:
+            if a.arg in self.static or a.arg in self.opts.get("drop", []):
+                continue
             t = self.ptypes.get(a.arg)
             if t is None:
                 raise Untranslatable(f"parameter {a.arg} has no declared type")
-            params.append(f"({a.arg} : {'List Rat' if t == 'vec' else ('List β' if t == 'coll' else 'Rat')})")
-        if self.f.args.vararg or self.f.args.kwarg or self.f.args.kwonlyargs:
+            params.append(f"({a.arg} : {ty(t)})")
+        if self.f.args.vararg or self.f.args.kwonlyargs or (self.f.args.kwarg and not self.opts.get("drop_kwargs")):
             raise Untranslatable("variadic parameters")
-        head = f"def {self.f.name} " + ("{β : Type} [DecidableEq β] " if generic else "") + " ".join(params) + f" : {ret} :=\n"
-        return head + body
+        head = f"def {self.f.name}{self.opts.get('suffix', '')} " + ("{β : Type} [DecidableEq β] " if generic else "") + " ".join(params) + f" : {ret} :=\n"
+        out = head + body
+        if self.real:
+            import re
+            out = re.sub(r"\bRat\b", "ℝ", out)
+        return out
 
 
 def source_of(path):
@@ -346,8 +415,30 @@ def gen_group(group):
     return write_if_changed(os.path.join(OUT, outname), "\n".join(out))
 
 
+def gen_real():
+    path, outname, fns = REAL_GROUP
+    tree = ast.parse(source_of(path))
+    defs = {n.name: n for n in tree.body if isinstance(n, ast.FunctionDef)}
+    out = [f"/- GENERATED by tools/gen_formulas.py from {path} — do not edit.", "",
+           "   Functions over the reals (logarithm, real power, floor), statement by statement; NumPy conversions are the identity,",
+           "   the uniform draws of `np.random.rand` are the explicit parameter `r`, `c[c >= cmin]` is `List.filter`; one definition per",
+           "   value of a `method` string (conditions on it are decided at translation time). -/",
+           "import Mathlib.Analysis.SpecialFunctions.Pow.Real", "import Mathlib.Analysis.SpecialFunctions.Log.Basic",
+           "namespace Prs.Generated", "noncomputable section", "open Classical", ""]
+    for name, ptypes, opts in fns:
+        if name not in defs:
+            raise Untranslatable(f"{path}: function {name} not found")
+        try:
+            out += [f"/-- `{name}` of {path}" + (f" with {opts['static']}" if opts.get("static") else "") + " -/",
+                    Fn(defs[name], ptypes, opts).lean(), ""]
+        except Untranslatable as e:
+            raise Untranslatable(f"{path}:{name}: {e}") from None
+    out += ["end", "end Prs.Generated", ""]
+    return write_if_changed(os.path.join(OUT, outname), "\n".join(out))
+
+
 def main():
-    return [gen_group(g) for g in GROUPS]
+    return [gen_group(g) for g in GROUPS] + [gen_real()]
 
 
 if __name__ == "__main__":
